@@ -7,7 +7,7 @@
        relative to that directory, component by component). *)
 From Coq Require Import Bool Arith Ascii String List.
 From CBI Require Import Lib.Res Model.C13p Model.C13fs Model.C13 Spec.C13 Spec.C13db
-  Proofs.C13p Proofs.C13 Proofs.C13db Proofs.C13k.
+  Proofs.C13p Proofs.C13 Proofs.C13db Proofs.C13k Proofs.C13n.
 Import ListNotations.
 
 (* For EVERY working directory string that is absolute, EVERY rootdir, directory
@@ -36,6 +36,16 @@ Theorem C13_include_dirs :
 Proof. exact inc_path_spec. Qed.
 Print Assumptions C13_include_dirs.
 
+(* the line as it was before the repair (include_paths joined to the ROOT) does
+   not have this property: a relative -I under a relative `directory` *)
+Theorem C13_include_dirs_root_join_refuted :
+  exists cwd rootdir directory i,
+    isabs cwd = true /\
+    forall k, inc_path_root_join cwd rootdir i
+              <> render k (resolve (s_dir (resolve (cwdloc cwd) rootdir) directory) i).
+Proof. exact inc_path_root_join_wrong. Qed.
+Print Assumptions C13_include_dirs_root_join_refuted.
+
 (* what "rendering" means: read from anywhere, a rendered proper location
    denotes exactly that location *)
 Theorem C13_render_denotes :
@@ -58,6 +68,28 @@ Theorem C13_normpath_absolute :
     (initial_slashes t = 1 \/ initial_slashes t = 2).
 Proof. exact normpath_abs. Qed.
 Print Assumptions C13_normpath_absolute.
+
+(* normpath is idempotent on every string, absolute or relative *)
+Theorem C13_normpath_idempotent : forall t, normpath (normpath t) = normpath t.
+Proof. exact normpath_idempotent. Qed.
+Print Assumptions C13_normpath_idempotent.
+
+(* a relative string normalises to "."  or to some ".." followed by proper names *)
+Theorem C13_normpath_relative :
+  forall t, isabs t = false ->
+    exists names ups, Forall (fun x => proper x = true) names /\
+      normpath t = match repeat dotdot ups ++ rev names with [] => dot | comps => intercalate comps end /\
+      isabs (normpath t) = false.
+Proof. exact normpath_rel. Qed.
+Print Assumptions C13_normpath_relative.
+
+(* the generated extension table (source.is_source_file) still separates the
+   sources a compilation database names from objects, archives and programs *)
+Theorem C13_table_sane :
+  forallb is_source_file (map s ["a.c"%string; "d/b.cpp"%string; "x.y.cc"%string; "k.f90"%string; "K.F90"%string; "h.h"%string; "v.hpp"%string; "../z.cxx"%string; "dir.d/u.cu"%string]) = true /\
+  existsb is_source_file (map s ["a.o"%string; "lib.a"%string; "a.out"%string; "prog"%string; ".c"%string; "c"%string; "a.c/.."%string; "so.so"%string; "a."%string; ""%string]) = false.
+Proof. vm_compute. split; reflexivity. Qed.
+Print Assumptions C13_table_sane.
 
 (* ---- what a real compiler process would do (kernel walk on a tree without links) ---- *)
 (* If a compiler started in `directory` (chdir succeeds) can open `file`, the
